@@ -245,6 +245,10 @@ class FnItem:
     """a function item used as a value (`sep`, `statement::item` passed as an argument)"""
     def __init__(self, fn): self.fn = fn
     def __repr__(self): return "fn-item %s" % self.fn.name
+class StdFn:
+    """a std / core function item used as a value (`char::is_uppercase` passed to map_or): called through the model table"""
+    def __init__(self, name): self.name = name
+    def __repr__(self): return "std-fn-item %s" % self.name
 class Opaque:
     def __init__(self, what): self.what = what
     def __repr__(self): return "<%s>" % self.what
@@ -402,6 +406,7 @@ class Exec:
             raise Unsupported("const " + c)
         fi = self.fn_item(o)
         if fi is not None: return fi
+        if re.match(r"^(core::|std::|alloc::)?[a-z]\w*(::[\w<> ]+)*::[a-z_]\w*$", o) and "<impl " in o or re.match(r"^(core|std|alloc)::[\w:]+::[a-z_]\w*$", o): return StdFn(o)
         return self.parse_place(o, fr).get()
     def fn_item(self, o):
         if not re.match(r"^[A-Za-z][\w:]*$", o) or not o.split("::")[-1][0].islower(): return None
@@ -470,6 +475,11 @@ class Exec:
         if r.startswith("&raw"): raise Unsupported(r)
         if r.startswith("&mut "): return self.parse_place(r[5:], fr)
         if r.startswith("&"): return self.parse_place(r[1:], fr)
+        mfp = re.match(r"^([A-Za-z_][\w:<>', ]*?) as (.+) \(PointerCoercion\(ReifyFnPointer.*\)$", r)
+        if mfp and not r.startswith(("copy ", "move ", "const ")):
+            fi = self.fn_item(strip_gen(mfp.group(1)))
+            if fi is not None: return fi
+            return StdFn(mfp.group(1))
         m = re.match(r"^((?:copy|move|const) .*?) as (.+) \(([\w(), ]+)\)$", r)
         if m and self.balanced(m.group(1)): return self.operand(m.group(1), fr)     # casts: identity on ints/pointers
         if r.startswith("(") and r.endswith(")") and not re.match(r"^\(.*: .*\)$", r):
@@ -711,7 +721,14 @@ class Exec:
                     self.parse_place(c[1], fr).set(self.rvalue(c[2], fr)); continue
                 if k == "call":
                     argv = [self.operand(x, fr) for x in c[3]]
-                    res = self.call(c[2], argv)
+                    mloc = re.match(r"^(?:copy |move )?(_\d+)$", c[2].strip())
+                    if mloc:                                   # call through a fn pointer held in a local
+                        fv = fr[mloc.group(1)]
+                        while isinstance(fv, Ref): fv = fv.get()
+                        if isinstance(fv, FnItem): res = self.run(fv.fn, argv)
+                        elif isinstance(fv, StdFn): res = self.model(fv.name, argv)
+                        else: raise Unsupported("call through %r" % (fv,))
+                    else: res = self.call(c[2], argv)
                     self.parse_place(c[1], fr).set(res); bb = c[4]; break
                 if k == "goto": bb = c[1]; break
                 if k == "switch":
@@ -806,6 +823,7 @@ def install(ex):
         clv = cl
         while isinstance(clv, Ref): clv = clv.get()
         if isinstance(clv, FnItem): return ex.run(clv.fn, list(args))
+        if isinstance(clv, StdFn): return ex.model(clv.name, list(args))
         if isinstance(clv, StructV) and clv.ty.startswith("closure@"): pos = clv.ty[8:]
         if pos is None:
             m = re.search(r"\{closure@([^}]*)\}", text)
@@ -854,11 +872,17 @@ def install(ex):
         if re.match(r"^core::slice::<impl \[.*\]>::iter$", c): l = lst_of(a[0]); return mk_iter([Ref(l, i) for i in range(len(l))])
         if re.match(r"^<&?(mut )?(Vec<.*>|\[.*\]) as IntoIterator>::into_iter$", c):
             l = lst_of(a[0]); return mk_iter([Ref(l, i) for i in range(len(l))])
-        if c.endswith("as IntoIterator>::into_iter") and not re.match(r"^<&?(mut )?(BTreeSet<|BTreeMap<|\[.*; \d+\])", c): return a[0]
+        if c.endswith("as IntoIterator>::into_iter") and not re.match(r"^<&?(mut )?(BTreeSet<|BTreeMap<|\[.*; \d+\])", c):
+            v0 = a[0].get() if isinstance(a[0], Ref) else a[0]
+            if isinstance(v0, EnumV) and v0.ty == "Option": return mk_iter(list(v0.fields) if v0.disc == 1 else [])
+            return a[0]
         if c.endswith("as Iterator>::next"):
             it = a[0].get() if isinstance(a[0], Ref) else a[0]; return it.nxt()
         def seq_of(v):
-            if isinstance(v, Ref): v = v.get()
+            if isinstance(v, Ref):
+                v = v.get()
+                if isinstance(v, VecV): return [Ref(v.items, i) for i in range(len(v.items))]      # iterating a &Vec yields references
+                if isinstance(v, list): return [Ref(v, i) for i in range(len(v))]
             if isinstance(v, IterV): return drain(v)
             if isinstance(v, SetV): return list(v.items)
             if isinstance(v, VecV): return list(v.items)
